@@ -566,13 +566,17 @@ def execute(plan):
                 log.count('idiom_' + op[1])
                 if live:
                     log.count('mutation_under_suspended_enum')
+                # the loops are quadratic in the number of equal facts (every retract(p(X)) with X bound scans the list), so
+                # the budget grows with the store: far above what a correct engine needs, finite for a loop that never ends
+                n_facts = sum(len(m.store.rows(k_)) for k_ in (('p', 1), ('p', 2), ('c', 1)))
+                budget_ = IDIOM_LINE_BUDGET + 80 * n_facts * n_facts
                 m.idiom(op[1])
                 try:
-                    with core.LineBudget(IDIOM_LINE_BUDGET) as lb:
+                    with core.LineBudget(budget_) as lb:
                         n = sum(1 for _ in yp.query(op[1], []))
                     log.lines += lb.count
                 except core.BudgetExceeded:
-                    log.violation('update-loop-does-not-terminate', {'idiom': op[1], 'line_budget': IDIOM_LINE_BUDGET})
+                    log.violation('update-loop-does-not-terminate', {'idiom': op[1], 'line_budget': budget_, 'facts_before': n_facts})
                     break
                 log.ev('idiom', op[1], n)
                 log.key(('idiom', op[1], len(live), tuple(m.store.rows(('p', 1))[:20]), tuple(m.store.rows(('c', 1))[:20])))
